@@ -65,10 +65,8 @@ def _feat(r, n, single_ok):
 
 
 def _container(r, ncol, n=2):
-    if n == 1:
-        # a ONE-row dataset with ndarray features is rejected by _process_features (np.squeeze makes the
-        # array 0-d / 1-d: ValueError); a rejection is not a wrong cell, reported separately
-        return r.choice(["list", "series", "series_named", "dataframe", "dict"] if ncol == 1 else ["dataframe", "dict"])
+    # (a ONE-row dataset with ndarray features used to be rejected: np.squeeze removed the row axis; repaired
+    #  in /repo 0478332, so arrays are generated for n = 1 as well and a recurrence is a failing input)
     if ncol == 1:
         return r.choice(["list", "ndarray", "series", "series_named", "dataframe", "dict", "ndarray2d"])
     return r.choice(["ndarray2d", "dataframe", "dict"])
@@ -96,6 +94,8 @@ def _random_case(r, n=None):
          "sf": [_feat(r, n, True) for _ in range(nsf)], "cf": [_feat(r, n, True) for _ in range(ncf)],
          "sf_container": _container(r, nsf, n), "cf_container": _container(r, ncf, n) if ncf else None,
          "sf_names": [f"s{chr(65 + j)}" for j in range(nsf)], "cf_names": [f"c{chr(65 + j)}" for j in range(ncf)]}
+    c["sp_container"] = r.choice(["list", "list", "ndarray", "series_perm", "series_offset", "series_str",
+                                  "frame1_perm"])
     c["callable"] = r.chance(1, 3)
     if c["callable"]:
         k = r.choice(["fp", "fp", "sr", "acc", "cnt"])
@@ -218,19 +218,42 @@ def _key(idx, alphas):
     return [a.index(v.item() if hasattr(v, "item") else v) for v, a in zip(idx, alphas)]
 
 
+def _spwrap(v, kind, n):
+    """per-sample parameter in a container whose index labels must be IGNORED (rows pair by position)"""
+    import numpy as np, pandas as pd
+    v = list(v)
+    if kind in (None, "list"):
+        return v
+    if kind == "ndarray":
+        return np.array(v)
+    perm = [(i * 7 + 3) % n for i in range(n)] if n > 1 else [5]
+    if len(set(perm)) != n:
+        perm = list(range(n - 1, -1, -1))
+    if kind == "series_perm":
+        return pd.Series(v, index=perm)
+    if kind == "series_offset":
+        return pd.Series(v, index=range(100, 100 + n))
+    if kind == "series_str":
+        return pd.Series(v, index=[f"r{j}" for j in perm])
+    if kind == "frame1_perm":
+        return pd.DataFrame({"w": v}, index=perm)
+    raise ValueError(kind)
+
+
 def impl(case):
     import pandas as pd
     from fairlearn.metrics import MetricFrame
     n = case["n"]
+    spk = case.get("sp_container")
     y_true = [2 * i + l for i, l in enumerate(case["label"])]
     fns = {m["name"]: _make_metric(m["kind"], m["name"]) for m in case["metrics"]}
     if case["callable"]:
         m = case["metrics"][0]
         metrics = fns[m["name"]]
-        sp = {p: list(v) for p, v in m["params"]} or None
+        sp = {p: _spwrap(v, spk, n) for p, v in m["params"]} or None
     else:
         metrics = fns
-        sp = {m["name"]: {p: list(v) for p, v in m["params"]} for m in case["metrics"] if m["params"]}
+        sp = {m["name"]: {p: _spwrap(v, spk, n) for p, v in m["params"]} for m in case["metrics"] if m["params"]}
         if not sp:
             sp = None
     kw = {}
@@ -239,6 +262,18 @@ def impl(case):
     mf = MetricFrame(metrics=metrics, y_true=y_true, y_pred=list(case["y_pred"]),
                      sensitive_features=_features(case["sf"], case["sf_container"], case["sf_names"]),
                      sample_params=sp, **kw)
+    import copy
+    sp_keys_before = None if sp is None else sorted((k, sorted(v) if isinstance(v, dict) else None) for k, v in sp.items())
+    # the SAME argument objects a second time: construction must not consume or alter them
+    mf2 = MetricFrame(metrics=metrics, y_true=y_true, y_pred=list(case["y_pred"]),
+                      sensitive_features=_features(case["sf"], case["sf_container"], case["sf_names"]),
+                      sample_params=sp, **kw)
+    sp_keys_after = None if sp is None else sorted((k, sorted(v) if isinstance(v, dict) else None) for k, v in sp.items())
+    try:
+        same = bool(pd.DataFrame(mf.by_group).astype(str).equals(pd.DataFrame(mf2.by_group).astype(str))) and \
+            str(mf.overall) == str(mf2.overall)
+    except Exception as e:  # noqa
+        same = f"{type(e).__name__}: {e}"
     names = [m["name"] for m in case["metrics"]]
     galph = [f["alpha"] for f in case["cf"]] + [f["alpha"] for f in case["sf"]]
     calph = [f["alpha"] for f in case["cf"]]
@@ -249,6 +284,8 @@ def impl(case):
            "by_group_index_names": list(bg.index.names), "by_group_columns": [str(c) for c in bg.columns],
            "sensitive_levels": list(mf.sensitive_levels),
            "control_levels": None if mf.control_levels is None else list(mf.control_levels)}
+    res["second_construction_same"] = same
+    res["sample_params_untouched"] = sp_keys_before == sp_keys_after
     ov = mf.overall
     if not case["cf"]:
         if case["callable"]:
@@ -386,6 +423,11 @@ def compare(case, out, model):
             sig = COLLISION_SIG if _colliding(case) else f"{PID}/MetricFrame/{obs}/rows-or-params-misaligned"
             v.append((sig, msg, "each cell is the metric on exactly the rows of that key, own parameters sliced "
                       "with them", "property"))
+    if out.get("second_construction_same") is not True or out.get("sample_params_untouched") is False:
+        v.append((f"{PID}/MetricFrame/arguments/consumed-or-altered-by-construction",
+                  f"a second MetricFrame built from the same argument objects differs (same={out.get('second_construction_same')}, "
+                  f"sample_params keys untouched={out.get('sample_params_untouched')})",
+                  "construction is a pure function of its arguments", "property"))
     if _colliding(case):
         # the faithful model reproduces the collision: nothing more to compare
         return v
